@@ -143,7 +143,7 @@ struct C05 : vr::Driver {
   }
   std::vector<std::string> assumptions() override {
     return {"dry-run kill path (no sleeps inside the real kill action); STOP later than the tick start is covered by the slow scripted actions (0.5 / 1.5 virtual seconds, half-second clock advances)",
-            "per-instance pause for ruleset-cgroup rulesets is explored by C11's check"};
+            "per-instance pause for ruleset-cgroup rulesets (including a stopping action with its own post_action_delay) is explored by C11's check"};
   }
 };
 }  // namespace
